@@ -28,6 +28,20 @@ def simulate(spec, R, progset=None, instructions=None, project=None):
     result = P.run_sim(P.parsets[0], progset=progset, progset_instructions=instructions)
     view = ref.View(result)
     R.count("runs")
+    # --- a plain junction that receives nobody has nothing to distribute, whatever its proportions: its outflows are 0, not NaN
+    for c in view.comps:
+        if c["kind"] == "junc" and not c["residual_junction"] and c["out"] and all(l["par"] is not None for l in c["out"]):
+            psum = np.sum([np.maximum(0.0, np.asarray(l["par"].vals, dtype=float)) for l in c["out"]], axis=0)
+            idle = (psum == 0) & (c["IN"] == 0)
+            idle[-1] = False  # flows at the last index are not computed
+            if idle.any():
+                R.count("idle_junction_steps_with_zero_proportions", int(idle.sum()))
+                outv = np.sum([l["vals"] for l in c["out"]], axis=0)
+                if np.any(idle & ~(outv == 0)):
+                    i = int(np.argmax(idle & ~(outv == 0)))
+                    R.bad("idle-junction-emits-nothing", "C01:idle-junction-with-zero-proportions-emits-NaN", {"junction": c["key"], "index": i, "inflow": float(c["IN"][i]), "outflows": [float(l["vals"][i]) for l in c["out"]]})
+                else:
+                    R.ok("idle-junction-emits-nothing", int(idle.sum()))
     # --- domain: plain junction receiving people (or initialised non-empty) while proportions sum <= 0
     ill = view.ill_posed_junctions()
     ps = P.parsets[0]
@@ -76,6 +90,12 @@ def simulate_case(case, R):
         R.count("corpus_runs[%s]" % case["framework"].split("/")[-1])
         R.count("corpus_mode[%s%s]" % (case["mode"], "+programs" if progset is not None else ""))
         return out
+    ps = case.get("progspec")
+    if ps is not None:
+        P = gen.build_project(case["spec"])
+        pset = gen.build_progset(ps, P.framework, P.data)
+        R.count("generated_runs_with_programs")
+        return simulate(case["spec"], R, progset=pset, instructions=gen.build_instructions(ps), project=P)
     return simulate(case["spec"], R)
 
 
